@@ -241,16 +241,24 @@ func jbig2Segments(b []byte) ([]jb2Segment, []field) {
 	return segs, fields
 }
 
-// jbig2Claim returns the page size claimed by the first page information
-// segment; ok=false if there is none or the height is unknown.
+// jbig2Claim returns the page size claimed by the page information segment.
+// If the body has several (segment programs; a mutated segment type), the
+// decoder may rightly produce any of these pages, so the largest claim is
+// returned; ok=false if there is none or one of them has an unknown height.
 func jbig2Claim(b []byte) (w, h uint32, ok bool) {
 	segs, _ := jbig2Segments(b)
+	var best int64 = -1
 	for _, s := range segs {
 		if s.typ == 48 && s.data+8 <= len(b) {
-			w = uint32(b[s.data])<<24 | uint32(b[s.data+1])<<16 | uint32(b[s.data+2])<<8 | uint32(b[s.data+3])
-			h = uint32(b[s.data+4])<<24 | uint32(b[s.data+5])<<16 | uint32(b[s.data+6])<<8 | uint32(b[s.data+7])
-			return w, h, h != 0xffffffff
+			sw := uint32(b[s.data])<<24 | uint32(b[s.data+1])<<16 | uint32(b[s.data+2])<<8 | uint32(b[s.data+3])
+			sh := uint32(b[s.data+4])<<24 | uint32(b[s.data+5])<<16 | uint32(b[s.data+6])<<8 | uint32(b[s.data+7])
+			if sh == 0xffffffff {
+				return sw, sh, false
+			}
+			if n := (int64(sw) + 7) / 8 * int64(sh); n > best {
+				best, w, h = n, sw, sh
+			}
 		}
 	}
-	return 0, 0, false
+	return w, h, best >= 0
 }
